@@ -109,6 +109,9 @@ def run(rep: Report, only_params: bool = False, only_variant=None) -> None:
         for st in ("SX", "MX"):
             for compact in (0, 2):
                 combos.append((st, compact, False, True, False, "long"))
+            for compact in (1, 2):
+                combos.append((st, compact, False, False, False, "interleaved"))
+                combos.append((st, compact, False, False, False, "ring"))
     if only_variant:
         ov = (only_variant,) if isinstance(only_variant, str) else tuple(only_variant)
         combos = [c for c in combos if c[5] in ov and (c[5] == "long" or (not c[2] and not c[4]))]
@@ -184,6 +187,22 @@ def run(rep: Report, only_params: bool = False, only_variant=None) -> None:
                         key=f"raise|{r[1].exc}|c={min(max(compact, 0), 2)}")
             continue
         _, names_in, args_in, names_out, args_out, opts, it = r
+        if variant == "merge" and params and not clamp and not same:
+            # an empty dict of parameters is "no parameters"
+            net6 = CP.build_network(prog, st, variant=variant)
+            CP.set_opaque_states(net6)
+            r6 = CP.to_function(prog, net6, compact=compact, more_out=False, parameters={},
+                                other={"T": TV(E.S("T"), 0, False)})
+            net6b = CP.build_network(prog, st, variant=variant)
+            CP.set_opaque_states(net6b)
+            base6 = CP.to_function(prog, net6b, compact=compact, more_out=False, other={"T": TV(E.S("T"), 0, False)})
+            if r6[0] == "function" and base6[0] == "function":
+                rep.check(list(r6[1]) == list(base6[1]) and len(r6[2]) == len(base6[2]), "empty-parameters", label, where,
+                          f"with parameters={{}} the function takes {list(r6[1])} instead of {list(base6[1])}",
+                          key=f"emptypar|c={min(max(compact, 0), 2)}")
+            else:
+                rep.refuted("empty-parameters", label, where, f"with parameters={{}} to_function raises {r6[1].exc}",
+                            key=f"emptypar|raise|c={min(max(compact, 0), 2)}")
         if variant == "merge" and not params and not clamp and not same:
             # compiling is repeatable: an earlier compilation in the same process (with the
             # extra outputs) leaves nothing behind that changes the next one
@@ -347,6 +366,8 @@ def run(rep: Report, only_params: bool = False, only_variant=None) -> None:
                           f"{cname}.init_vars", f"after init_vars the element has {got}, documented {want}: the "
                           "function's arguments would not be the network's variables", key=f"docvars|{cname}")
         rep.floor("elements compared with the documented variables", n_doc, 8)
+    if not only_params and not only_variant:
+        CP.check_recompile(rep, prog, where)
     rep.analysed["option_combinations"] = n
     rep.floor("option combinations", n, 4 if only_variant else 6 if only_params else 30)
 
